@@ -3,7 +3,7 @@
 # Exit 2 on any build trouble (never a VIOLATION).
 set -u
 export GOFLAGS=-mod=mod GOPROXY=off GOSUMDB=off GOTOOLCHAIN=local GONOSUMCHECK=1 GONOSUMDB='*' GOFLAGS=-mod=mod
-V=/verif
+V=$(dirname $(dirname $(readlink -f $0)))
 B=$V/build
 REPO=${VF_REPO:-/repo}
 OUT=${1:-$B/sftp.verif.test}
